@@ -61,7 +61,8 @@ def translate_request(request):
 
         environ[key] = hdr_value
 
-    environ['wsgi.url_scheme'] = environ.get('HTTP_X_FORWARDED_PROTO', 'http')
+    environ['wsgi.url_scheme'] = environ.get('HTTP_X_FORWARDED_PROTO',
+                                             request.scheme)
 
     path_info = uri_parts.path
 
